@@ -66,12 +66,13 @@ type Exec struct {
 	inInit bool
 	initRan map[string]bool
 	knownFuncs map[string]*FuncV
+	derivedUFs map[string]int
 }
 
 func newExec(w *World, sp *Specs, fn *ssa.Function, spec *FuncSpec) *Exec {
 	return &Exec{w: w, sp: sp, fn: fn, key: funcKey(fn), spec: spec, notes: map[string]bool{}, strlits: map[string]*Term{}, fltlits: map[string]*Term{},
 		factDone: map[string]bool{}, budget: 6000, labels: map[ssa.Instruction]string{}, loops: map[*ssa.Function]*loopInfo{}, safety: true,
-		usedExtern: map[string]bool{}, tids: map[string]int64{}, inlineDepthMax: 4, calls: map[string]int{}, initRan: map[string]bool{}, knownFuncs: map[string]*FuncV{}}
+		usedExtern: map[string]bool{}, tids: map[string]int64{}, inlineDepthMax: 4, calls: map[string]int{}, initRan: map[string]bool{}, knownFuncs: map[string]*FuncV{}, derivedUFs: map[string]int{}}
 }
 
 func (x *Exec) note(format string, a ...interface{}) { x.notes[fmt.Sprintf(format, a...)] = true }
